@@ -102,3 +102,50 @@ Theorem C02_replace_map_by_item_refuted :
 Proof. exact by_item_variant_refuted. Qed.
 Goal True. idtac "ASSUMPTIONS-OF C02_replace_map_by_item_refuted". Abort.
 Print Assumptions C02_replace_map_by_item_refuted.
+
+(* ---- CHARACTER LEVEL: string_replace_map as the statement matchers use it (Model/Srm.v: the two passes built from
+   the splitquote and splitparen models; tied to the code by tools/srm_corr.py -- the replaced line, key kinds and
+   what the map restores, compared inside Coq on generated texts -- and by tools/translate_srm.py, which reads off
+   the 113 live classes that delegate to the four matchers below with constant arguments).
+   For EVERY text: what the map restores holds every non-blank character of the text, once and in order (what can
+   be lost are blanks just inside a replaced bracket pair: the code trims the body it stores). *)
+From Coq Require Import String.
+From FV Require Srm SrmLaws SrmOk SrmGen.
+Theorem C02_replaced_line_restores_every_nonblank_character :
+  forall s : SplitLine.text, SrmLaws.nb (Srm.flat2 (Srm.srm s)) = SrmLaws.nb s.
+Proof. exact SrmLaws.srm_keeps_nonblank. Qed.
+Goal True. idtac "ASSUMPTIONS-OF C02_replaced_line_restores_every_nonblank_character". Abort.
+Print Assumptions C02_replaced_line_restores_every_nonblank_character.
+
+(* SequenceBase.match (every generated <X>_List class and the other classes that delegate to it): for EVERY live
+   class and EVERY text, the entries handed to the sub-rule, joined with the separator, hold every non-blank
+   character of the text, once and in order -- nothing but the separators it cut at is dropped -- and no entry
+   contains the separator outside its literals and brackets. *)
+Theorem C02_every_live_list_class_hands_on_every_character :
+  forall cls sep, In (cls, sep) SrmGen.seq_classes ->
+  (forall s, SrmLaws.nb (SrmLaws.join_text sep (Srm.seq_match sep s)) = SrmLaws.nb s) /\
+  (forall s, Forall (fun e => existsb (Srm.is_c2 sep) e = false) (Srm.split2 sep (Srm.srm s))).
+Proof. intros cls sep H. destruct (SrmOk.live_seq_classes cls sep H) as (A & B & _). split; assumption. Qed.
+Goal True. idtac "ASSUMPTIONS-OF C02_every_live_list_class_hands_on_every_character". Abort.
+Print Assumptions C02_every_live_list_class_hands_on_every_character.
+
+(* SeparatorBase.match ([lhs] : [rhs]) and KeywordValueBase.match with a class on the left ([lhs =] rhs): the two
+   texts handed on hold every non-blank character but the ':' / '=' that was cut at, for every argument setting *)
+Theorem C02_separator_and_keyword_value_hand_on_every_character :
+  (forall hl hr ql qr s l r, Srm.sep_match hl hr ql qr s = Srm.SepOk l r ->
+     SrmLaws.nb (SrmLaws.otext l ++ ":"%char :: SrmLaws.otext r) = SrmLaws.nb s) /\
+  (forall rq up s l r, Srm.kv_match None rq up s = Srm.KvOk l r ->
+     SrmLaws.nb (match l with Some x => x ++ ["="%char] | None => [] end ++ r) = SrmLaws.nb s).
+Proof. split; [exact SrmLaws.sep_match_keeps_nonblank|exact SrmLaws.kv_match_keeps_nonblank]. Qed.
+Goal True. idtac "ASSUMPTIONS-OF C02_separator_and_keyword_value_hand_on_every_character". Abort.
+Print Assumptions C02_separator_and_keyword_value_hand_on_every_character.
+
+(* non-vacuity: a text with a literal holding a comma, nested brackets and a real constant with an exponent *)
+Example C02_example_replaced_line :
+  let t := fun x => String.list_ascii_of_string x in
+  Srm.seq_match ","%char (t "a(1, 2) ,'p,q', f( g(x, 'r)') ), ( 1.0e-3 ), [3, 4]"%string)
+  = [t "a(1, 2)"%string; t "'p,q'"%string; t "f(g(x, 'r)'))"%string; t "( 1.0e-3 )"%string; t "[3, 4]"%string] /\
+  In ("f2003:Actual_Arg_Spec_List"%string, ","%char) SrmGen.seq_classes.
+Proof. cbv zeta. split; vm_compute; tauto. Qed.
+Goal True. idtac "ASSUMPTIONS-OF C02_example_replaced_line". Abort.
+Print Assumptions C02_example_replaced_line.
